@@ -60,6 +60,8 @@ def function(ex: I.Executor, f, args, kwargs):
         sp = None
     if sp is not None:
         return sp(ex, *args)
+    if hasattr(f, 'symbolic') and type(f).__name__ == 'OpaqueInt':
+        return f.symbolic(ex, *args)
     if f is isinstance:
         return VBool(isinstance_(ex, args[0], args[1]))
     if f is len:
@@ -352,6 +354,14 @@ def function(ex: I.Executor, f, args, kwargs):
     r = _hook(ex, getattr(f, '__qualname__', None) or name, args, kwargs)
     if r is not NOMODEL:
         return r
+    import calendar
+    if f in (calendar.isleap, calendar.leapdays):
+        # T-DEP: the pure stdlib definitions are interpreted from their own source
+        cargs = [a.conc for a in args]
+        if NOTCONC in cargs:
+            from .extract import spec_ast
+            ex.note(f'T-DEP: calendar.{name} interpreted from the stdlib source')
+            return ex.call_func(VFunc(spec_ast(f), None, f.__globals__, name), args, kwargs)
     # exception classes: construct the exception value
     if isinstance(f, type) and issubclass(f, BaseException):
         return VExc(f)
